@@ -347,15 +347,7 @@ impl TryFrom<&Constraint> for PerVisibleRangeConstraints {
                     ElementOrSetOperation::SetOperation(s) => {
                         let mut v: PerVisibleRangeConstraints =
                             fold_constraint_set(s, None, true)?.as_ref().try_into()?;
-                        if s.operator == SetOperator::Intersection
-                            && (matches!(s.base, SubtypeElements::SizeConstraint(_))
-                                | matches!(
-                                    *s.operant,
-                                    ElementOrSetOperation::Element(
-                                        SubtypeElements::SizeConstraint(_)
-                                    )
-                                ))
-                        {
+                        if set_has_size_element(s) {
                             v.is_size_constraint = true;
                         }
                         // The lexer attaches a trailing extension marker to the last element
@@ -511,6 +503,15 @@ pub fn per_visible_range_constraints(
 /// then the resulting constraint is not PER-visible.
 /// If a constraint has an EXCEPT clause, the EXCEPT and the following value set is completely ignored,
 /// whether the value set following the EXCEPT is PER-visible or not.
+/// Whether one of the operands of the set is a SIZE constraint: the folded range is then a size.
+fn set_has_size_element(set: &SetOperation) -> bool {
+    matches!(set.base, SubtypeElements::SizeConstraint(_))
+        || match &*set.operant {
+            ElementOrSetOperation::Element(e) => matches!(e, SubtypeElements::SizeConstraint(_)),
+            ElementOrSetOperation::SetOperation(inner) => set_has_size_element(inner),
+        }
+}
+
 fn trailing_extension_marker(set: &SetOperation) -> bool {
     match &*set.operant {
         ElementOrSetOperation::SetOperation(inner) => trailing_extension_marker(inner),
